@@ -163,7 +163,9 @@ func (d *PathDecoder) isPosInsideAttrExpr(attr *hclsyntax.Attribute, pos hcl.Pos
 	}
 
 	// edge case: near end (typically newline char)
-	if attr.Expr.Range().End.Byte == pos.Byte {
+	// (the parser gives some incomplete expressions a range which ends at the
+	// zero position, i.e. before it starts; such an end is not a place in the file)
+	if attr.Expr.Range().End.Byte == pos.Byte && attr.Expr.Range().End.Byte >= attr.Expr.Range().Start.Byte {
 		return true
 	}
 
